@@ -190,7 +190,7 @@ def main(argv=None):
         restarts = 0
         # a negative return code is a process abort inside native code (e.g. an XLA CHECK failure): the case that
         # was running is recorded, skipped, and the shard is re-run with the same seed (at most 3 times)
-        while rc < 0 and restarts < 3 and os.path.exists(outp + ".cur"):
+        while rc < 0 and restarts < 6 and os.path.exists(outp + ".cur"):
             from gv.common import case_hash
 
             with open(outp + ".cur") as f:
@@ -299,7 +299,7 @@ def main(argv=None):
         if not a.get("isolated"):
             print(f"NOTE: process abort (signal {a['signal']}) in native code while running a case on shard {a['shard']}; case skipped and recorded in the evidence")
     if any(a.get("isolated") for a in aborted_cases):
-        print(f"NOTE: {sum(1 for a in aborted_cases if a.get('isolated'))} case(s) aborted inside the XLA compiler in an isolated child process (strided + lhs-dilated convolution); excluded and recorded in the evidence")
+        print(f"NOTE: {sum(1 for a in aborted_cases if a.get('isolated'))} case(s) aborted inside the XLA compiler in an isolated child process (image-dilated convolution); excluded and recorded in the evidence")
     if vio_paths:
         for k, path, msg in vio_paths:
             print(f"  {k}: {msg[:300]}")
